@@ -104,6 +104,28 @@ func dispatch(which string, b []byte) string {
 	})
 }
 
+var dtBoundary = []string{"2000-1-1-0-0-0", "1999-12-31-23-59-59", "2000-1-1-0-0-1", "1-1-1-0-0-1", "1-1-2-0-0-0", "9999-12-31-23-59-59", "1970-1-1-0-0-0",
+	"1969-12-31-23-59-59", "2000-2-29-12-0-0", "2100-1-1-0-0-0", "1900-1-1-0-0-0", "2038-1-19-3-14-8", "2001-1-1-0-0-0", "2020-10-10-10-10-10", "100-1-1-0-0-0"}
+var dBoundary = []string{"1-1-2", "2000-1-1", "1999-12-31", "2000-2-29", "2001-1-1", "9999-12-31", "1970-1-1", "1969-12-31", "100-1-1", "1000-10-10", "2020-10-20"}
+
+func prefixed(p string, xs []string) []string {
+	out := []string{}
+	for _, x := range xs {
+		out = append(out, p+x)
+	}
+	return out
+}
+
+var boundaryToks = map[string][]string{
+	"datetime": prefixed("dt:", dtBoundary), "datetimeptr": prefixed("dtptr:", dtBoundary),
+	"date": prefixed("date:", dBoundary), "dateptr": prefixed("dateptr:", dBoundary),
+	"sysdate": {"sd:2000-1-1", "sd:1999-12-31", "sd:1969-1-1", "sd:2068-12-31", "sd:2001-1-1", "sd:2020-10-10"},
+	"systime": {"st:0-0-0", "st:23-59-59", "st:0-0-1", "st:10-10-10", "st:12-0-0"},
+	"hhmm":    {"hm:0,0", "hm:24,0", "hm:23,59", "hm:0,1", "hm:12,0", "hm:10,10"},
+	"hhmmptr": {"hmptr:0,0", "hmptr:24,0", "hmptr:23,59", "hmptr:0,1", "hmptr:12,0"},
+	"pin":     {"u32:0", "u32:1", "u32:999999", "u32:65536", "u32:256"},
+}
+
 var odd = []int{0, 1, 2, 3, 4, 8, 32, 62, 63, 65, 66, 127, 128, 1023, 1024, 2047, 2048}
 
 func streamMsgs(c *ctx) {
@@ -147,6 +169,20 @@ func streamMsgs(c *ctx) {
 				}
 				o = doUnmarshal(mt.t, g)
 				w.Emit("unmarshal "+lt+" | "+cases.Hex(g), o, "unmarshal-of/image-with-random-gaps", "unmarshal/"+strings.SplitN(o, " ", 2)[0])
+			}
+		}
+		// every date / time field at each of its round and extreme values in turn (an otherwise ordinary message):
+		// decode(encode v) must give v back for these exact values too
+		for fi, k := range ks {
+			for _, tok := range boundaryToks[k] {
+				toks := genVals(r, ks, false)
+				toks[fi] = tok
+				out, img := doMarshal(r, mt.t, toks)
+				w.Emit("marshal "+lt+" | "+strings.Join(toks, " "), out, "type/"+mt.name, "values/boundary", "marshal/"+strings.SplitN(out, " ", 2)[0])
+				if img != nil {
+					o := doUnmarshal(mt.t, img)
+					w.Emit("unmarshal "+lt+" | "+cases.Hex(img), o, "unmarshal-of/boundary-image", "unmarshal/"+strings.SplitN(o, " ", 2)[0])
+				}
 			}
 		}
 		// arbitrary byte strings of any length (C04)
